@@ -409,10 +409,29 @@ def lifecycle(ctx):
                             "runs": [[["E", evs], ["R"], ["E", evs[:2] + [[40, 0, "c", "03e8"]]]]],
                             "horizon": 20 * TPS, "kind": "lifecycle", "tag": f"reconnect:end={end}:iv={iv}"})
 
+    # the application ends the connection itself (close() in a handler) and the server takes several intervals to answer
+    # the close frame, or never does: nothing is pinged once the client's close frame is out
+    for iv in (100, 250):
+        for reply in ([[iv * 6, 0, "c", "03e8"]], []):
+            for sched in ("", "1", "01"):
+                evs = [[90, 0, "t", "61"], [iv * 3, 0, "t", "62"]] + reply
+                scs.append({"cbs": appsim.ALL, "iv": iv, "to": None, "payload": "x", "runs": [[["E", evs]]], "sched": sched,
+                            "plan": {"on_message": "oc"}, "horizon": 20 * TPS, "kind": "lifecycle",
+                            "tag": f"own-close:reply={'late' if reply else 'never'}:iv={iv}"})
+
     def extra(ctx, sc, r):
         # per ping thread: pings at start + k*iv (k >= 2), none after its stop, none missing while it lives
         start, alive, up = None, False, False
         seen = set()
+        own_close = None
+        for it in r["trace"].split(";"):
+            t, _, rest = it.partition(":")
+            if rest.startswith("wrote:8:") and own_close is None:
+                own_close = int(t)
+            elif rest.startswith("wrote:9:") and own_close is not None and int(t) > own_close:
+                ctx.violate("periodic", "ping-after-the-client's-own-close-frame", sc, "pings stop when the connection ends",
+                            f"close frame written at {own_close}, ping at {t}; trace …{r['trace'][-200:]}", size=appcheck.size_of(sc))
+                break
 
         def missing(upto):
             if start is None:
@@ -433,7 +452,7 @@ def lifecycle(ctx):
                 seen = set()
             elif rest == "pingStop":
                 alive = False
-            elif rest.startswith(("sockClosed:", "sockDropped:", "ret:", "cb:on_error", "cb:on_close", "raised:")) and up:
+            elif rest.startswith(("sockClosed:", "sockDropped:", "ret:", "cb:on_error", "cb:on_close", "raised:", "wrote:8:")) and up:
                 missing(t)          # the CONNECTION ends here: every ping due before must have been sent
                 up = False
             elif rest.startswith("wrote:9:"):
